@@ -176,7 +176,8 @@ def token_stream(chk, w):
     pre_arcs = [(bb, t) for bb, t in arcs if bb not in inloop]
     def arc_ty(t):
         return t["callee"].get("generic", "")
-    first_ok = len(pre_arcs) == 1 and "SplitLinebreaksFilter" in arc_ty(pre_arcs[0][1])
+    headers = list(lp)
+    first_ok = len(pre_arcs) == 1 and "SplitLinebreaksFilter" in arc_ty(pre_arcs[0][1]) and bool(headers) and all(cfp.dominates(pre_arcs[0][0], h) for h in headers)
     chk.ob("R16.2", "linebreak-filter-first", first_ok, "the post-filter list does not start with exactly SplitLinebreaksFilter before the configured filters: %s" % [arc_ty(t) for _, t in pre_arcs], site=C.site(bp))
     pushes_in_loop = [bb for bb, t in cfgmod.calls(bp) if (cfgmod.callee(t) or "").endswith("Vec::push") and bb in inloop]
     chk.ob("R16.2", "configured-filters-appended-in-order", len(pushes_in_loop) == 1, "configured filters are not appended one per wsconst character", site=C.site(bp))
